@@ -8,6 +8,8 @@ the generated style table; `C10_n_runs` lifts one repeated run to any number of 
 -/
 import ReuseVerif.Lemmas.Idem
 import ReuseVerif.Lemmas.ReadBack
+import ReuseVerif.Lemmas.C10MultiReadBack
+import ReuseVerif.Lemmas.C10Locator
 import ReuseVerif.Theorems.C08
 namespace C10
 open Py Model Spec C08L C10L
@@ -126,6 +128,251 @@ theorem C10_single_readback (s : Generated.Style) (hs : s ∈ Generated.styles) 
   exact single_readback hS text hno blk hblk rest hrest
 
 example : ∃ s ∈ Generated.styles, s.name = "LispCommentStyle" ∧ s.canSingle = true ∧ s.isEmptyStyle = false := by decide
+
+/-- **Table obligation, multi-line mode.**  Every style of the generated table that can write multi-line comments
+    satisfies `MultiOK`: no marker or indentation contains a line boundary; the opener does not end with the
+    terminator; the prefix of a body line (`indentation + middle marker`) does not end with the terminator; and
+    no non-empty end of `prefix + indentation` is a proper beginning of the terminator — so a text line that
+    does not *contain* the terminator cannot complete one across the boundary between marker and text. -/
+theorem C10_multi_table : ∀ s ∈ Generated.styles, s.canMulti = true → s.isEmptyStyle = false → MultiOK s := by
+  decide +kernel
+
+/-- **Multi-line read-back for every header text.**  For every style of the table that can write multi-line
+    comments, every text whose only line boundary is `\n` and that does not contain the style's terminator (the
+    guard of `_create_comment_multi`; with it `createMulti` fails and nothing is written), and *whatever* follows
+    the block's line end: `comment_at_first_character` returns exactly the block `_create_comment_multi`
+    produced — the opener is recognised (also where it looks like a single-line comment: Julia's `#=`), and the
+    first line that ends with the terminator is the block's last line.  Supersedes the multi-line half of
+    `C10_table` (11 representative texts × 5 continuations) by a statement for all texts and continuations. -/
+theorem C10_multi_readback (s : Generated.Style) (hs : s ∈ Generated.styles) (hc : s.canMulti = true)
+    (he : s.isEmptyStyle = false) (text : Text) (hno : NoExoticBreaks text) (blk : Text)
+    (hblk : createMulti s text = .ok blk) (rest : Text) :
+    commentAtFirst s (blk ++ '\n' :: rest) = .ok blk :=
+  multi_readback (C10_multi_table s hs hc he) text hno blk hblk rest
+
+/-- the same through `create_comment`: `--multi-line`, or a style without single-line comments -/
+theorem C10_multi_readback_comment (s : Generated.Style) (hs : s ∈ Generated.styles) (he : s.isEmptyStyle = false)
+    (forceMulti : Bool) (hm : forceMulti = true ∨ s.canSingle = false) (text : Text) (hno : NoExoticBreaks text)
+    (blk : Text) (hblk : createComment s text forceMulti = .ok blk) (rest : Text) :
+    commentAtFirst s (blk ++ '\n' :: rest) = .ok blk := by
+  have h1 : createComment s text forceMulti = createMulti s text := by
+    rcases hm with h | h <;> simp [createComment, he, h]
+  rw [h1] at hblk
+  have hc : s.canMulti = true := by
+    cases hcm : s.canMulti with
+    | true => rfl
+    | false => simp [createMulti, hcm] at hblk
+  exact C10_multi_readback s hs hc he text hno blk hblk rest
+
+/-- the condition excludes something: a C-like style written without the blank between `*` and the text —
+    the text line `/` (which does not contain `*/`) would end the block early -/
+example : ¬ MultiOK (⟨"X", "x", [], none, [], "/*".toList, "*".toList, "*/".toList, " ".toList, [], " ".toList, []⟩ : Generated.Style) := by
+  decide +kernel
+example : ∃ s ∈ Generated.styles, s.name = "JuliaCommentStyle" ∧ s.canMulti = true ∧ s.isEmptyStyle = false := by decide
+example : okComment (createMulti (⟨"X", "x", [], none, [], "/*".toList, "*".toList, "*/".toList, " ".toList, " ".toList, " ".toList, []⟩ : Generated.Style)
+    "a\n\nb".toList) "/*\n * a\n *\n * b\n */".toList = true := by decide +kernel
+
+/-! ### the second run's locator: `secondRunOK` discharged up to "the header reproduces itself" -/
+
+/-- both read-back conditions hold for every style of the generated table but the two pseudo styles -/
+theorem C10_style_table (s : Generated.Style) (hs : s ∈ Generated.styles) (he : s.isEmptyStyle = false) : StyleOK s :=
+  ⟨he, fun hc => C10_single_table s hs hc he, fun hc => C10_multi_table s hs hc he⟩
+
+/-- **Table obligation, first-line markers.**  No first-line marker of a style can begin a comment block of that
+    style — with one exception, TeX's `% !TEX`, which extends `marker + indentation` (`% `): a header whose first
+    text line starts with `!TEX` would be taken for a first-line declaration (hypothesis `htex` below). -/
+theorem C10_shebang_free_table :
+    ∀ s ∈ Generated.styles, ∀ sb ∈ s.shebangs, sb ≠ "% !TEX".toList → ShebangFree s sb := by
+  decide +kernel
+
+/-- with nothing above the header (`a = ""`: the header stands first) the locator meets nothing before it -/
+theorem C10_nothing_above_top (c : HdrCfg) (rest : Text) : nothingAbove c [] rest = true := by
+  unfold nothingAbove
+  rw [List.all_eq_true]
+  intro p _
+  simp
+
+/-- **The locator finds the header the tool wrote, at its place.**  For every style of the table (not a pseudo
+    style) and a template that is not pre-commented: let `hdr` be what `create_header` returned, free of exotic
+    line boundaries and carrying REUSE information; `a` empty or ending a line; `b` arbitrary in multi-line mode,
+    empty or starting with a line end in single-line mode.  If nothing above the header is a comment block with
+    REUSE information (`nothingAbove`), `_find_first_spdx_comment` on `a ++ hdr ++ "\n" ++ b` returns exactly
+    `(a, hdr ++ "\n", b)`.  Uses `C10_single_readback` / `C10_multi_readback` for every header text. -/
+theorem C10_locator_finds {c : HdrCfg} {info : Extracted} {old a hdr b : Text} (hs : c.style ∈ Generated.styles)
+    (he : c.style.isEmptyStyle = false) (hcom : c.commented = false)
+    (hcreate : createHeader c info old = .ok hdr) (hno : NoExoticBreaks hdr)
+    (ha : a = [] ∨ ∃ a0, a = a0 ++ ['\n'])
+    (hb : multiMode c.style c.forceMulti = true ∨ b = [] ∨ ∃ r, b = '\n' :: r)
+    (hinfo : containsReuseInfo c.parses hdr = true)
+    (habove : nothingAbove c a (hdr ++ '\n' :: b) = true) :
+    findFirstSpdxComment c (a ++ hdr ++ ['\n'] ++ b) = some (a, hdr ++ ['\n'], b) :=
+  locator_finds (C10_style_table _ hs he) hcom hcreate hno ha hb hinfo habove
+
+/-- **`secondRunOK` from its remaining parts.**  Everything `secondRunOK` asks for is derived — the locator
+    returns exactly the written block between exactly the written parts, the block is non-empty and is not
+    taken for a first-line declaration — except that `create_header` on the block found and the same request
+    gives the block again (`hrepro`: extraction returns the request and the renderer is a function of the sorted
+    sets — C07's guard, C02), under the hypotheses of `C10_locator_finds`. -/
+theorem C10_second_run_ok {c : HdrCfg} {info : Extracted} {t a hdr b : Text} (hs : c.style ∈ Generated.styles)
+    (he : c.style.isEmptyStyle = false) (hcom : c.commented = false)
+    (h1 : firstRunParts c info t = some (a, hdr, b)) (hno : NoExoticBreaks hdr)
+    (hb : multiMode c.style c.forceMulti = true ∨ b = [] ∨ ∃ r, b = '\n' :: r)
+    (htex : startsWith hdr "% !TEX".toList = false)
+    (hinfo : containsReuseInfo c.parses hdr = true)
+    (habove : nothingAbove c a (hdr ++ '\n' :: b) = true)
+    (hrepro : createHeader c info (hdr ++ ['\n']) = .ok hdr) :
+    secondRunOK c info a hdr b = true := by
+  obtain ⟨hcreate, ha, _⟩ := firstRunParts_some h1
+  have hsty := C10_style_table _ hs he
+  have hfind := locator_finds hsty hcom hcreate hno (by rw [ha]; exact aboveOf_shape _) hb hinfo habove
+  have hname : (c.style.name == "EmptyCommentStyle") = false := by
+    simp only [Generated.Style.isEmptyStyle, Bool.or_eq_false_iff] at he
+    exact he.1
+  have hsb : c.style.shebangs.all (fun sb => !(startsWith (hdr ++ ['\n']) sb)) = true := by
+    rw [List.all_eq_true]
+    intro sb hsb
+    have hnb := (C08.C08_shebang_table _ hs sb hsb).2.1
+    have : startsWith hdr sb = false := by
+      by_cases htx : sb = "% !TEX".toList
+      · rw [htx]; exact htex
+      · exact header_no_shebang hsty hcom hcreate hno sb (C10_shebang_free_table _ hs sb hsb htx)
+    simp [startsWith_lf_iff hnb this]
+  unfold secondRunOK
+  rw [hfind]
+  simp only [hname, Bool.false_eq_true, if_false, hsb, hrepro, okText, beq_self_eq_true, Bool.and_true, Bool.true_and]
+  simp
+
+/-- **Idempotence with fewer hypotheses (partial).**  For every style of the generated table (both modes; not the
+    `.license` pseudo style), every template that is not pre-commented, every request and every text `t`: if
+    the replacing run writes `a ++ hdr ++ "\n" ++ b` (`h1`), then `n + 1` runs give that text, provided
+    * `hno`  — the written header has no line boundary other than `\n` (decidable on the output);
+    * `hb`   — in single-line mode, what follows the header's line end is empty or starts with an empty line
+               (always so when the file had no header before: `C10_idem_fresh_partial2`; with an old header and
+               no empty line below it, a same-style comment directly below would join the block);
+    * `htex` — the header does not start with `% !TEX` (trivial outside the TeX style);
+    * `hinfo`, `habove` — the header carries REUSE information and nothing above it is a comment block with REUSE
+               information (statements about `extract_reuse_info` on arbitrary comment blocks: C02 / C09);
+    * `hrepro` — `create_header` on the written block and the same request returns the block (C07's guard + C02:
+               extraction returns the merged request; the renderer is a function of the sorted sets).
+    Against `C10_idem_partial`: the locator part of `secondRunOK` (block found exactly, at its place, for every
+    header text in both modes; not a shebang; non-empty) is now proved; what remains is `hrepro` and the two
+    extraction facts `hinfo`, `habove`. -/
+theorem C10_idem_partial2 {c : HdrCfg} {info : Extracted} {t a hdr b : Text} (hs : c.style ∈ Generated.styles)
+    (he : c.style.isEmptyStyle = false) (hcom : c.commented = false)
+    (h1 : firstRunParts c info t = some (a, hdr, b)) (hno : NoExoticBreaks hdr)
+    (hb : multiMode c.style c.forceMulti = true ∨ b = [] ∨ ∃ r, b = '\n' :: r)
+    (htex : startsWith hdr "% !TEX".toList = false)
+    (hinfo : containsReuseInfo c.parses hdr = true)
+    (habove : nothingAbove c a (hdr ++ '\n' :: b) = true)
+    (hrepro : createHeader c info (hdr ++ ['\n']) = .ok hdr) (n : Nat) :
+    runs c info (n + 1) t = .ok (a ++ hdr ++ ['\n'] ++ b) :=
+  C10_idem_partial h1 (C10_second_run_ok hs he hcom h1 hno hb htex hinfo habove hrepro) n
+
+/-- **The property's case: no header in the file before** (bodies free of REUSE tags).  `hb` holds by
+    construction — `place_header` separates a new header from what follows by an empty line. -/
+theorem C10_idem_fresh_partial2 {c : HdrCfg} {info : Extracted} {t a hdr b : Text} (hs : c.style ∈ Generated.styles)
+    (he : c.style.isEmptyStyle = false) (hcom : c.commented = false)
+    (hfresh : findFirstSpdxComment c t = none)
+    (h1 : firstRunParts c info t = some (a, hdr, b)) (hno : NoExoticBreaks hdr)
+    (htex : startsWith hdr "% !TEX".toList = false)
+    (hinfo : containsReuseInfo c.parses hdr = true)
+    (habove : nothingAbove c a (hdr ++ '\n' :: b) = true)
+    (hrepro : createHeader c info (hdr ++ ['\n']) = .ok hdr) (n : Nat) :
+    runs c info (n + 1) t = .ok (a ++ hdr ++ ['\n'] ++ b) := by
+  refine C10_idem_partial2 hs he hcom h1 hno ?_ htex hinfo habove hrepro n
+  right
+  obtain ⟨_, _, hbelow⟩ := firstRunParts_some h1
+  have hold : (replaceSections c t).2.1 = [] := by
+    unfold replaceSections
+    simp only [hfresh]
+    have := moveShebang_spec c.style.shebangs [] [] (if (c.style.name == "EmptyCommentStyle") = true then [] else t)
+    rcases this with h | ⟨_, h, _⟩ | ⟨_, _, h, _⟩
+    · rw [h]
+    · exact (List.append_eq_nil_iff.mp h).2
+    · exact h
+  rw [hold] at hbelow
+  rw [hbelow]
+  exact belowOf_fresh_shape _
+
+/-- … and when moreover nothing stands above the header (no shebang lines: `a = ""`), `habove` is void -/
+theorem C10_idem_top_partial2 {c : HdrCfg} {info : Extracted} {t hdr b : Text} (hs : c.style ∈ Generated.styles)
+    (he : c.style.isEmptyStyle = false) (hcom : c.commented = false)
+    (hfresh : findFirstSpdxComment c t = none)
+    (h1 : firstRunParts c info t = some ([], hdr, b)) (hno : NoExoticBreaks hdr)
+    (htex : startsWith hdr "% !TEX".toList = false)
+    (hinfo : containsReuseInfo c.parses hdr = true)
+    (hrepro : createHeader c info (hdr ++ ['\n']) = .ok hdr) (n : Nat) :
+    runs c info (n + 1) t = .ok (hdr ++ ['\n'] ++ b) := by
+  have := C10_idem_fresh_partial2 hs he hcom hfresh h1 hno htex hinfo (C10_nothing_above_top c _) hrepro n
+  simpa using this
+
+/-- `C10_idem_partial2` at the level of the file (`add_header_to_file`): an LF file and its CRLF form — both runs
+    write the same characters (through `C08_line_endings_lf` / `_crlf`) -/
+theorem C10_idem_text_partial2 {c : HdrCfg} {info : Extracted} {t a hdr b : Text} (hs : c.style ∈ Generated.styles)
+    (he : c.style.isEmptyStyle = false) (hcom : c.commented = false)
+    (h1 : firstRunParts c info t = some (a, hdr, b)) (hno : NoExoticBreaks hdr)
+    (hb : multiMode c.style c.forceMulti = true ∨ b = [] ∨ ∃ r, b = '\n' :: r)
+    (htex : startsWith hdr "% !TEX".toList = false)
+    (hinfo : containsReuseInfo c.parses hdr = true)
+    (habove : nothingAbove c a (hdr ++ '\n' :: b) = true)
+    (hrepro : createHeader c info (hdr ++ ['\n']) = .ok hdr)
+    (hcr : NoCR t) (hcr' : NoCR (a ++ hdr ++ ['\n'] ++ b)) :
+    (annotateText c true false info t = .written (a ++ hdr ++ ['\n'] ++ b) ∧
+     annotateText c true false info (a ++ hdr ++ ['\n'] ++ b) = .written (a ++ hdr ++ ['\n'] ++ b)) ∧
+    ('\n' ∈ t →
+      annotateText c true false info (toCRLF t) = .written (toCRLF (a ++ hdr ++ ['\n'] ++ b)) ∧
+      annotateText c true false info (toCRLF (a ++ hdr ++ ['\n'] ++ b)) = .written (toCRLF (a ++ hdr ++ ['\n'] ++ b))) := by
+  have h2 := C10_second_run_ok hs he hcom h1 hno hb htex hinfo habove hrepro
+  exact ⟨C10_idem_text_partial h1 h2 hcr hcr', fun hlf => C10_idem_crlf_partial h1 h2 hcr hlf hcr'⟩
+
+/-- a style of the table: the C style's block for a three-line text -/
+example : ∃ s ∈ Generated.styles, s.name = "CCommentStyle" ∧
+    okComment (createMulti s "a\n\nb".toList) "/*\n * a\n *\n * b\n */".toList = true := by decide +kernel
+
+/-- **The `.license` pseudo style** (`--force-dot-license`, files without a comment style), the property's case: the
+    `.license` file holds no REUSE information before.  The run writes the header and its line end, nothing else
+    (`a = ""`, `b = ""`); for this style the whole text is the block, so the second run finds `hdr ++ "\n"` at the
+    first position as soon as it carries REUSE information (`hinfo`), and `n + 1` runs give `hdr ++ "\n"` when
+    `create_header` on that block (with the line end the locator adds) and the same request returns `hdr` (`hrepro`). -/
+theorem C10_idem_license_partial2 {c : HdrCfg} {info : Extracted} {t a hdr b : Text} (hs : c.style ∈ Generated.styles)
+    (hname : (c.style.name == "EmptyCommentStyle") = true) (hfresh : findFirstSpdxComment c t = none)
+    (h1 : firstRunParts c info t = some (a, hdr, b))
+    (hinfo : containsReuseInfo c.parses (hdr ++ ['\n']) = true)
+    (hrepro : createHeader c info (hdr ++ ['\n', '\n']) = .ok hdr) (n : Nat) :
+    a = [] ∧ b = [] ∧ runs c info (n + 1) t = .ok (hdr ++ ['\n']) := by
+  have hes : c.style.isEmptyStyle = true := by simp [Generated.Style.isEmptyStyle, hname]
+  have hsb : c.style.shebangs = [] := C08.C08_pseudo_table _ hs hes
+  obtain ⟨_, ha, hb⟩ := firstRunParts_some h1
+  have hsec : replaceSections c t = ([], [], []) := by
+    unfold replaceSections
+    simp only [hfresh, hname, if_true, hsb, moveShebang]
+  rw [hsec] at ha hb
+  have ha' : a = [] := by rw [ha]; decide
+  have hb' : b = [] := by rw [hb]; simp [belowOf]; decide
+  subst ha' hb'
+  refine ⟨rfl, rfl, ?_⟩
+  have hfind : findFirstSpdxComment c ([] ++ hdr ++ ['\n'] ++ []) = some ([], hdr ++ ['\n'] ++ ['\n'], []) := by
+    unfold findFirstSpdxComment
+    rw [lineStartSuffixes_eq, List.findSome?_cons]
+    have hc : commentAtFirst c.style ([] ++ hdr ++ ['\n'] ++ []) = .ok (hdr ++ ['\n']) := by
+      unfold commentAtFirst
+      simp [hes]
+    simp only [hc]
+    simp [hinfo]
+  have h2 : secondRunOK c info [] hdr [] = true := by
+    unfold secondRunOK
+    rw [hfind]
+    simp only [hname, if_true, hsb, okText]
+    have : hdr ++ ['\n'] ++ ['\n'] = hdr ++ ['\n', '\n'] := by simp
+    rw [this, hrepro]
+    simp
+  simpa using C10_idem_partial h1 h2 n
+
+/-- the marker condition excludes something (TeX's `% !TEX` against `% `), and holds elsewhere -/
+example : ∃ s ∈ Generated.styles, s.name = "TexCommentStyle" ∧ ¬ ShebangFree s "% !TEX".toList ∧ ShebangFree s "%!TEX".toList := by
+  decide +kernel
+example : multiMode (⟨"X", "x", "#".toList, none, " ".toList, [], [], [], [], [], [], []⟩ : Generated.Style) false = false := by decide
+example : belowOf "x\n".toList false = "\nx\n".toList ∧ aboveOf "#!/bin/sh\n".toList = "#!/bin/sh\n\n".toList := by decide
 
 /-! ### non-vacuity
 
